@@ -1,15 +1,18 @@
 -------------------------- MODULE Trace_ThemeConfig --------------------------
 (* C20, last clause: a theme's config text reads back as a theme with equal styles.  A record
-   holds, per style name, the projection of the style before and after the round trip
-   Theme -> .config -> Theme.from_file: 13 tri-state attributes, colours, link.                *)
+   holds, per style name of the theme, the projection of the style before and after the round trip
+   Theme -> .config -> Theme.from_file / Theme.read: 13 tri-state attributes, colours, link;
+   names / namesAfter are the style names before and after, extra the names of DEFAULT_STYLES when
+   the text was read with inherit on (the reader then adds them, by its documentation).           *)
 EXTENDS Naturals, Sequences, TLC, Json, IOUtils
 Recs == JsonDeserialize(IOEnv.TRACE_FILE)
 VARIABLE tid
 R == Recs[tid]
+SetOf(sq) == {sq[i] : i \in DOMAIN sq}
 SameStyle(a, b) == a.attrs = b.attrs /\ a.fg = b.fg /\ a.bg = b.bg /\ a.link = b.link
 Verdict ==
     IF R.exc # "none" THEN "config-raises-" \o R.exc
-    ELSE IF R.namesAfter # R.names THEN "config-names-differ"
+    ELSE IF SetOf(R.namesAfter) # SetOf(R.names) \cup SetOf(R.extra) THEN "config-names-differ"
     ELSE IF \E i \in DOMAIN R.before : ~SameStyle(R.before[i], R.after[i]) THEN "config-style-differs"
     ELSE "ok"
 Init == tid \in 1..Len(Recs)
